@@ -98,6 +98,13 @@ inline Plan decode_plan(const ShapeDesc& sd, vk::Choice& c) {
   unsigned f = c.upto(20);
   if (f >= 12 && f < 17 && !callable_nodes.empty()) { p.fault_node = callable_nodes[c.upto((uint32_t)callable_nodes.size())]; p.fault_call = (int)c.upto(2); }
   else if (f >= 17 || (f >= 9 && f < 12 && vk::ctx().argi("legacy", 0) == 0 && (vk::ctx().prop == "C02" || vk::ctx().prop == "C05" || vk::ctx().prop == "C11"))) { p.anon_fault = (long)c.upto(48); }
+  // a stop request issued from inside a callable (between an adaptor's steps: after the predecessor completed, before the successor
+  // exists); derived from the hash of the decoded plan so that recorded byte strings decode as before
+  if (vk::ctx().argi("legacy", 0) == 0 && p.fault_node < 0 && p.anon_fault < 0 && !callable_nodes.empty() && !p.stop_before_start && c.h % 5 == 0) {
+    p.stop_call_node = callable_nodes[(size_t)((c.h / 5) % callable_nodes.size())]; p.stop_call_idx = (int)((c.h / 977) % 2);
+    c.mix((uint64_t)(p.stop_call_node * 2 + p.stop_call_idx + 3));
+    t += vk::sfmt("stop-inside-callable(n%d,call%d) ", p.stop_call_node, p.stop_call_idx);
+  }
   t += vk::sfmt("| stop:%s%s%s destroy_in_completion=%d%s poison=%02x", p.stop_before_start ? "before-start " : "", p.stop_tokens ? "as-event " : "", p.stop_after_completion ? "after-completion " : "", (int)p.destroy_on_completion, p.never_start ? " NEVER-STARTED" : "", p.poison);
   if (p.fault_node >= 0) t += vk::sfmt(" fault:callable(n%d,call%d)", p.fault_node, p.fault_call);
   if (p.anon_fault >= 0) t += vk::sfmt(" fault:throw-point#%ld", p.anon_fault);
